@@ -12,7 +12,7 @@ namespace xs {
 const char* const kOpNames[OK_N] = {"Q", "PARSE", "ADDCD", "NIST_NAME", "NIST_IDX", "NIST_LIST", "RN_NAME", "RN_IDX", "RN_LIST",
                                     "A2S", "S2A", "ERR_COPY", "ERR_MATCH", "ERR_PROP", "ERR_CLEAR", "CA_INIT", "CA_ADD", "CA_READ",
                                     "CA_GET", "CA_LIST", "CA_FILL", "CR_COPY", "CR_MUT", "CR_MATH", "ATOMFAC", "FREE", "INIT",
-                                    "DEPRECATED", "ERR_NEW"};
+                                    "DEPRECATED", "ERR_NEW", "MISC"};
 const char* const kFileMutNames[FM_N] = {"none", "no_ucell", "dup_ucell", "bad_ucell", "no_L", "short_atom_row", "nonnumeric_atom_row",
                                          "long_line", "no_EOF_marker", "truncated_text", "random_bytes", "empty", "long_name", "bad_S_line",
                                          "extra_columns", "crlf", "no_atoms"};
@@ -679,7 +679,15 @@ void gen_history(Rng& r, const GenCfg& cfg, std::vector<Op>& out, int& next_id, 
       else if (a < 48) { o.kind = OK_RN_NAME; o.s = gen_lookup_name(r, g_rn_names, &o.snull); st.hs.push_back({id, HT_RN, false}); }
       else if (a < 52) { o.kind = OK_RN_IDX; o.i[0] = r.chance(9, 10) ? r.range(0, 9) : r.range(-3, 14); st.hs.push_back({id, HT_RN, false}); }
       else if (a < 54) { o.kind = OK_RN_LIST; o.i[0] = r.range(0, 1); st.hs.push_back({id, HT_STRLIST, false}); }
-      else if (a < 59) { o.kind = OK_A2S; o.i[0] = gen_Z(r); st.hs.push_back({id, HT_STRING, false}); }
+      else if (a < 57) { o.kind = OK_A2S; o.i[0] = gen_Z(r); st.hs.push_back({id, HT_STRING, false}); }
+      else if (a < 59) {
+        // the small exported helpers (complex arithmetic, allocation wrappers, the variadic error constructor)
+        static const char* const fns[] = {"c_abs", "c_mul", "xrl_malloc", "xrl_strdup", "xrl_strndup", "xrl_error_new"};
+        o.kind = OK_MISC; o.fn = fns[r.below(6)]; o.selfc = 1;
+        for (int k = 0; k < 4; k++) o.d[k] = r.chance(4, 5) ? (r.unit() - 0.5) * 200 : gen_E(r);
+        o.i[0] = r.chance(9, 10) ? r.range(0, 300) : r.range(0, 70000);
+        bool isnull; o.s = maybe_long(r, gen_compound_arg(r, &isnull));
+      }
       else if (a < 63) {
         o.kind = OK_S2A;
         int q = r.range(0, 9);
